@@ -65,6 +65,96 @@ def _registry_ops(fi):
     return ops
 
 
+def _is_reg_get(v):
+    """REG.get(key) / REG.get(key, None): None exactly when the key is not registered (given that None is never stored)."""
+    return isinstance(v, ast.Call) and isinstance(v.func, ast.Attribute) and v.func.attr == "get" and dotted(v.func.value) == REG and not v.keywords \
+        and (len(v.args) == 1 or (len(v.args) == 2 and isinstance(v.args[1], ast.Constant) and v.args[1].value is None))
+
+
+def _stored_values_are_objects(repo, mgr):
+    """Every value stored in the registry is a freshly constructed instance of a repository class that defines neither __bool__ nor
+    __len__ (so it is never None and always truthy): the premise under which `REG.get(k) is not None` / `if REG.get(k)` mean `k in REG`."""
+    n = 0
+    for fi in mgr.methods.values():
+        for kind, node in _registry_ops(fi):
+            if kind != "store":
+                continue
+            n += 1
+            if not isinstance(node, ast.Subscript):
+                return False
+            from ..model import enclosing_stmt
+            st = enclosing_stmt(node)
+            if not (isinstance(st, ast.Assign) and isinstance(st.value, ast.Name)):
+                return False
+            defs = [a for a in ast.walk(fi.node) if isinstance(a, ast.Assign) and any(isinstance(t, ast.Name) and t.id == st.value.id for t in a.targets)]
+            if not defs or st.value.id in fi.params:
+                return False
+            for a in defs:
+                if not isinstance(a.value, ast.Call):
+                    return False
+                tgt = repo.resolve_call(fi, a.value)
+                cls = getattr(tgt, "cls", None) if getattr(tgt, "name", None) == "__init__" else (tgt if hasattr(tgt, "methods") else None)
+                if cls is None or "__bool__" in cls.methods or "__len__" in cls.methods:
+                    return False
+    return n >= 1
+
+
+def _member_tests(repo, mgr, fi, cfg):
+    """[(test node, positive, origin id)]: branch nodes that decide whether the key is registered.  `positive` tells which edge means
+    "registered"; `origin` is the node at which the registry was consulted (the test itself, or the REG.get(...) binding it tests)."""
+    out = []
+    objects = None
+    gets = {}
+    other = set()
+    for n in cfg.nodes:
+        if n.kind == "stmt" and isinstance(n.stmt, (ast.Assign, ast.AnnAssign, ast.AugAssign)):
+            tg = n.stmt.targets if isinstance(n.stmt, ast.Assign) else [n.stmt.target]
+            for t in tg:
+                for x in ast.walk(t):
+                    if isinstance(x, ast.Name):
+                        if isinstance(n.stmt, ast.Assign) and len(tg) == 1 and t is x and _is_reg_get(n.stmt.value):
+                            gets.setdefault(x.id, []).append(n.id)
+                        else:
+                            other.add(x.id)
+    for n in cfg.nodes:
+        if n.kind != "test":
+            continue
+        found = False
+        for c in ast.walk(n.ast):
+            if isinstance(c, ast.Compare) and len(c.ops) == 1 and isinstance(c.ops[0], (ast.In, ast.NotIn)) and dotted(c.comparators[0]) == REG:
+                out.append((n, isinstance(c.ops[0], ast.In), n.id))
+                found = True
+                break
+        if found:
+            continue
+        e, pol = n.ast, True
+        while isinstance(e, ast.UnaryOp) and isinstance(e.op, ast.Not):
+            e, pol = e.operand, not pol
+        if isinstance(e, ast.Compare) and len(e.ops) == 1 and isinstance(e.ops[0], (ast.Is, ast.IsNot, ast.Eq, ast.NotEq)):
+            a, b = e.left, e.comparators[0]
+            if isinstance(a, ast.Constant) and a.value is None:
+                a, b = b, a
+            if not (isinstance(b, ast.Constant) and b.value is None):
+                continue
+            if isinstance(e.ops[0], (ast.Is, ast.Eq)):
+                pol = not pol
+            e = a
+        origin = None
+        if _is_reg_get(e):
+            origin = n.id
+        elif isinstance(e, ast.Name) and e.id in gets and e.id not in other and e.id not in fi.params:
+            doms = [d for d in gets[e.id] if cfg.dominates(d, n.id)]
+            if len(gets[e.id]) == 1 and doms:
+                origin = doms[0]
+        if origin is None:
+            continue
+        if objects is None:
+            objects = _stored_values_are_objects(repo, mgr)
+        if objects:
+            out.append((n, pol, origin))
+    return out
+
+
 def _node_of(cfg, expr):
     from ..model import enclosing_stmt
     st = enclosing_stmt(expr)
@@ -190,16 +280,14 @@ def check(repo):
     # ---------------------------------------------------------------- R12.5 mechanism in create_service
     cfg = cfg_of(create.node)
     awaits_all = _await_nodes(cfg)
-    member_tests = [(n, c) for n in cfg.nodes if n.kind == "test" for c in ast.walk(n.ast)
-                    if isinstance(c, ast.Compare) and len(c.ops) == 1 and isinstance(c.ops[0], (ast.In, ast.NotIn)) and dotted(c.comparators[0]) == REG]
+    member_tests = _member_tests(repo, mgr, create, cfg)
     start_nodes = [n for n in cfg.nodes if n.ast is not None and n.stmt is not None and any(
         isinstance(c.func, ast.Attribute) and c.func.attr == "start" for c in calls_in_order(n.stmt if n.kind != "test" else n.ast))]
     sid_param = create.params[1] if len(create.params) > 1 else "sid"
     r5.require(len(start_nodes) == 1, create, "single start of request processing", "create_service must start the service exactly once (found %d)" % len(start_nodes))
     if r5.require(len(member_tests) >= 1, create, "membership test present",
                   "create_service no longer tests whether the sid is already being served (no `sid in self._service_dict`)") and start_nodes:
-        tnode, cmp_ = member_tests[0]
-        positive = isinstance(cmp_.ops[0], ast.In)
+        tnode, positive, _origin = member_tests[0]
         # names bound to the registered previous service
         prev_names = set()
         for s in ast.walk(create.node):
@@ -326,9 +414,8 @@ def check(repo):
     for fi in coros:
         c = cfg_of(fi.node)
         aw = _await_nodes(c)
-        tests = [n for n in c.nodes if n.kind == "test" and any(
-            isinstance(x, ast.Compare) and len(x.ops) == 1 and isinstance(x.ops[0], (ast.In, ast.NotIn)) and dotted(x.comparators[0]) == REG
-            for x in ast.walk(n.ast))]
+        # the moment the registry was consulted: the test itself, or the REG.get(...) binding it examines
+        tests = [c.nodes[o] for (_n, _p, o) in _member_tests(repo, mgr, fi, c)]
         for kind, node in _registry_ops(fi):
             if kind != "store":
                 continue
